@@ -124,7 +124,15 @@ impl<X, Y> Dataset<X, Y> {
     // Convert 2D targets to 1D. Only works for targets with shape of form [X, 1], panics otherwise.
     pub fn into_single_target(self) -> Dataset<X, Y, Ix1> {
         let nsamples = self.records.nsamples();
-        let targets = self.targets.into_shape(nsamples).unwrap();
+        let targets = if self.targets.is_standard_layout() {
+            self.targets.into_shape(nsamples).unwrap()
+        } else {
+            // `into_shape` refuses arrays which are not contiguous, e.g. a column sliced out of a
+            // larger array
+            Array1::from_iter(self.targets.into_iter())
+                .into_shape(nsamples)
+                .unwrap()
+        };
         let features = self.records;
         Dataset::new(features, targets)
     }
